@@ -30,7 +30,7 @@ class C15(Check):
     trace_module = "TraceNetwork"
     trace_cfg = "TraceNetwork.cfg"
     rule = ("cases = states of GenNetwork: every canonical index pattern of 3 operands of rank <= 2 (thorough: <= 3) on 5 labels with no label more "
-            "than twice and at least one contraction, full contractions to a rank-0 result included (hash-sampled), and sampled 4-operand patterns, each with uniform "
+            "than twice and at least one contraction, full contractions to a rank-0 result included (hash-sampled), sampled 4-operand patterns (rank-3-centred ones and three-legged stars included) and six 5-operand topologies, each with uniform "
             "extents (2 or 3: a wrongly ordered result keeps its static type) and with two distinct-extent assignments; double and int32; op-min on, "
             "and off / depth-first (FASTOR_DONT_PERFORM_OP_MIN, FASTOR_KEEP_DP_FIXED) as configurations; random small-integer data; the recorded "
             "extents and every element are compared by TLC with Einsum!Einstein; which_variant is recorded for the L2 order model. "
